@@ -30,6 +30,18 @@ def check_truthful(r, what):
         for c in r.cols():
             w = check_truthful(c, what + ' column %r' % (c.name,))
             if w: return w
+        # rows obtained by indexing and by iteration are vectors as well: their reported dtype must not lie about the cells
+        rows = []
+        try:
+            rows = [r[i] for i in range(len(r))] + [rw for rw in r][-1:]
+        except Exception:
+            rows = []
+        for rw in rows:
+            sch = rw.schema(); cells = list(rw)
+            for e in cells:
+                if e is None:
+                    if sch is not None and not sch.nullable: return '%s: row %r reports %r but holds None' % (what, cells, sch)
+                elif sch is not None and not H.belongs(e, sch.kind): return '%s: row %r reports %r but holds %r' % (what, cells, sch, e)
         return None
     if not isinstance(r, Vector):
         return None
